@@ -269,9 +269,9 @@ class Oracle:
                 lo = 1 if i["start"]["k"] == "none" else self.integer(i["start"], syms, env.get("$loop"))
                 hi = d if i["stop"]["k"] == "none" else self.integer(i["stop"], syms, env.get("$loop"))
                 st = self.integer(i["step"], syms, env.get("$loop"))
-                if st != 1:
-                    raise Unsupported("stepped subscript range")
-                pos = self.modelica_range(lo, 1, hi)
+                if st < 1:
+                    raise Unsupported("descending subscript range")
+                pos = self.modelica_range(lo, st, hi)
                 scalar.append(False)
             else:
                 v = self.ev(i, env, syms)
@@ -579,11 +579,11 @@ def canon_float(v):
 class RealModel:
     """parse -> flatten (for the serialised AST) -> generate [-> simplify] on the real code."""
 
-    def __init__(self, txt, name="M", opts=None, simplify=False):
+    def __init__(self, txt, name="M", opts=None, simplify=False, tree=None):
         from pymoca import parser, ast
         from pymoca.tree import flatten
         from pymoca.backends.casadi import generator
-        self.tree = parser.parse(txt, bypass_cache=True)
+        self.tree = tree if tree is not None else parser.parse(txt, bypass_cache=True)
         if self.tree is None:
             raise Unsupported("parser returned None")
         self.name = name
@@ -1120,10 +1120,31 @@ class ModelGen:
             c = self.eg.pick(classes)
             declare("input", "Real", "u%d" % i, c)
             sc.atoms[c].append("u%d" % i)
+        def attrs():
+            """Attribute modifications, partly depending on parameters (metadata function of C12/C13)."""
+            if r.random() > 0.5:
+                return ""
+            ps = [w[0] for w in vars_ if w[0].startswith("p")]
+            parts = []
+            for a in ("start", "min", "max", "nominal"):
+                if r.random() < 0.45:
+                    k = r.random()
+                    if ps and k < 0.4:
+                        v = self.eg.pick(ps)
+                    elif ps and k < 0.6:
+                        v = "%s * %s + %s" % (self.eg.pick(["2", "0.5", "3"]), self.eg.pick(ps), self.eg.pick(LITS["gen"]))
+                    elif ps and k < 0.7:
+                        v = "-%s" % self.eg.pick(ps)
+                    else:
+                        v = self.eg.pick(LITS["gen"])
+                    parts.append("%s = %s" % (a, v))
+            if r.random() < 0.15:
+                parts.append("fixed = true")
+            return "(%s)" % ", ".join(parts) if parts else ""
         states = []
         for i in range(r.randint(1, 2)):
             c = self.eg.pick(classes)
-            at = "(start = %s)" % self.eg.pick(LITS["gen"]) if r.random() < 0.4 else ""
+            at = attrs()
             declare("", "Real", "x%d" % i, c, (), None, at)
             sc.atoms[c].append("x%d" % i)
             states.append("x%d" % i)
@@ -1131,7 +1152,7 @@ class ModelGen:
         for i in range(r.randint(1, 3)):
             c = self.eg.pick(classes)
             pre = "output" if r.random() < 0.2 else ""
-            declare(pre, "Real", "y%d" % i, c)
+            declare(pre, "Real", "y%d" % i, c, (), None, attrs())
             sc.atoms[c].append("y%d" % i)
             algs.append("y%d" % i)
         bools = []
@@ -1158,6 +1179,12 @@ class ModelGen:
                 for hi in range(lo + 1, L + 1):
                     if hi - lo + 1 < L:
                         sc.vecs.setdefault(hi - lo + 1, []).append("v%d[%d:%d]" % (i, lo, hi))
+            if L >= 3:      # stepped subscript ranges start:step:stop (the step need not divide the span)
+                for st in (2, 3):
+                    if st + 1 > L:
+                        continue
+                    hi = r.randint(st + 1, L)
+                    sc.vecs.setdefault(len(range(1, hi + 1, st)), []).append("v%d[1:%d:%d]" % (i, st, hi))
         mats = []
         if r.random() < 0.3:
             R, C = r.randint(2, 3), r.randint(2, 3)
